@@ -39,6 +39,20 @@ def compile_problem(objective, constraints, num_threads=0, verbose_compile=False
         raise NotImplementedError('The objective function must be affine.')
     # Generate a conic system that is feasible iff the constraints are feasible.
     A, b, K, variable_map, variables, svid2col = compile_constrained_system(constraints, num_threads, verbose_compile)
+    # The objective's Variables must belong to the same "generation" as the constraints' Variables:
+    # ScalarVariable ids are only meaningful within one generation.
+    gens = set(v.generation for v in variables)
+    if any(v.generation not in gens for v in objective.variables()):
+        msg = """
+        The objective contains Variable objects whose "generation" is distinct from that of
+        the Variable objects in the constraints.
+
+        This should only happen when Variable objects were created before a call to
+        coniclifts.clear_variable_indices() and are used together with Variable objects
+        created after that call.
+
+        """
+        raise RuntimeError(msg)
     # Generate the vector for the objective function.
     c, c_offset = compile_objective(objective, svid2col)
     if c_offset != 0:
